@@ -6,6 +6,7 @@ mod prng;
 mod c07;
 mod c01;
 mod c02;
+mod diag;
 mod c13;
 mod c04;
 mod c08;
